@@ -20,7 +20,36 @@ GROUPS_C02 = [
     ("KF-C02-10", r"remove_redundant_comprehensions", "remove_redundant_comprehensions rewrites `(u for u in xs)` to `iter(xs)` / `{x: y for x, y in zip(..)}` to `dict(zip(..))` etc.; when the comprehension variable is read later in the same snippet the rewritten code fails (NameError) and a generator becomes a plain iterator."),
     ("KF-C02-11", r"simplify_boolean_expressions_symmath", "simplify_boolean_expressions_symmath applies sympy's boolean simplification to operands with side effects / non-boolean values: evaluation order and the number of calls change."),
 ]
-GROUPS = {"C02": GROUPS_C02}
+GROUPS_C01 = [
+    ("KF-C01-01", r"/blk/", None),
+    ("KF-C01-02", r"/grammar/", None),
+    ("KF-C01-03", r"/loopvar/|replace_nested_loops|replace_for_loops", None),
+    ("KF-C01-04", r"singleton_comparison", None),
+    ("KF-C01-05", r"unused_zip_args", None),
+    ("KF-C01-06", r"replace_dict_(update|assign)", None),
+    ("KF-C01-07", r"simplify_boolean_expressions|simplify_math_iterators|remove_dead_ifs|fix_unconventional", None),
+    ("KF-C01-08", r"implicit_defaultdict", None),
+    ("KF-C01-09", r"/pointless/", None),
+]
+GROUPS = {"C02": GROUPS_C02, "C01": GROUPS_C01}
+
+
+def c01_globs(keys):
+    """fc/<opts>/<rest>: the option string is s<safe>k<keep_imports>p<preserve>l<len>; a snippet that fails for
+    every option combination is listed as fc/*/<rest>, one that fails only without safe mode as fc/s0*/<rest>."""
+    by = collections.defaultdict(set)
+    for k in keys:
+        _, opts, rest = k.split("/", 2)
+        by[rest].add(opts)
+    out = set()
+    for rest, opts in by.items():
+        if any(o.startswith("s1") for o in opts) and any(o.startswith("s0") for o in opts):
+            out.add("fc/*/" + rest)
+        elif all(o.startswith("s0") for o in opts):
+            out.add("fc/s0*/" + rest)
+        else:
+            out.add("fc/s1*/" + rest)
+    return out
 
 def main():
     groups = GROUPS.get(prop)
@@ -34,8 +63,15 @@ def main():
                 break
         else:
             rest.append(k)
+    old = {f["id"]: f for f in kf["findings"] if f["property"] == prop}
     kf["findings"] = [f for f in kf["findings"] if not (f["property"] == prop and f["id"] in {g[0] for g in groups})]
     for fid, pat, what in groups:
+        if what is None:
+            what = old[fid]["what"]
+        if prop == "C01":
+            by[fid] = c01_globs(by[fid])
+        if "--replace" not in sys.argv and fid in old:
+            by[fid] = set(by[fid]) | set(old[fid]["keys"])
         if by[fid]:
             kf["findings"].append({"id": fid, "property": prop, "keys": sorted(by[fid]), "what": what, "status": "open"})
             print(fid, len(by[fid]))
